@@ -119,10 +119,18 @@ func ZZH_C17_BaseDocumentUntouched() {
 	base.AddParagraph("plain")
 	// a header part as an opened package carries it (concrete XML text)
 	base.parts["word/header1.xml"] = []byte(`<?xml version="1.0" encoding="UTF-8"?><w:hdr xmlns:w="` + zzhNSMain + `"><w:p><w:r><w:t>Dept {{dept}}</w:t></w:r></w:p></w:hdr>`)
+	// a table whose middle row is a row loop; the list is empty, never supplied, or holds an item
+	zzhLoopTable(base)
 	te := NewTemplateEngine()
 	tpl, err := te.LoadTemplateFromDocument("doc", base)
 	zzvAssume(err == nil && tpl != nil)
 	td := NewTemplateData()
+	switch zzvChoice(3) {
+	case 1:
+		td.SetList("items", []interface{}{})
+	case 2:
+		td.SetList("items", []interface{}{map[string]interface{}{"iname": zzhValue(1), "qty": "q"}})
+	}
 	if zzvBool() {
 		td.SetVariable("name", zzhValue(2))
 	}
